@@ -33,6 +33,9 @@ func c20Src(L int) *wSrc {
 		propsK: []string{c20Str("src.propK", L)}, propsV: []string{c20Str("src.propV", L)},
 	}
 	vAssume(s.coll != "")
+	if vBool("src.hasStaleReplicateInfo") {
+		s.stale = &commonpb.ReplicateInfo{IsReplicate: vBool("src.stale.isReplicate"), MsgTimestamp: vU64("src.stale.msgTimestamp"), ReplicateID: vStr("src.stale.replicateID", 2)}
+	}
 	return s
 }
 
